@@ -252,6 +252,9 @@ func pinnedC01() []*pgen.Case {
 		pinnedHelperNameClash("pin_helper_clash_func", "// goverter:output:format function\n// goverter:output:file ./p.gen.go\n", false),
 		pinnedHelperNameClash("pin_helper_clash_struct", "// goverter:output:file ./p.gen.go\n", false),
 		pinnedHelperNameClash("pin_helper_clash_vars", "", true),
+		pinnedHelperVsLaterConverter("pin_helper_vs_later_converter_func", "function"), pinnedHelperVsLaterConverter("pin_helper_vs_later_converter_vars", "variables"),
+		pinnedUnderlyingLiteral("pin_underlying_ptr_chan_source"),
+		pinnedNumberedTemporaries("pin_numbered_temporaries_first", true), pinnedNumberedTemporaries("pin_numbered_temporaries_last", false),
 		pinnedSameName("pin_same_impl_name", false), pinnedSameName("pin_same_func_name", true),
 		pinnedFuncTypes("pin_func_types"), pinnedChanTypes("pin_chan_types"), pinnedBlankFields("pin_blank_fields"), pinnedSameNameTwoFiles("pin_same_name_two_files")}
 }
@@ -318,6 +321,55 @@ func pinnedHelperNameClash(name, lines string, vars bool) *pgen.Case {
 	}
 	c := pgen.RawCase(name, map[string]string{"p/input.go": src}, nil, []string{"./p"})
 	c.Feature("tag", "helper-name-clash")
+	return c
+}
+
+// pinnedHelperVsLaterConverter: the helper that an EARLIER converter (by name) needs is called like the function / variable
+// that a LATER converter of the same output package declares (repaired defect, see known-findings.txt).
+func pinnedHelperVsLaterConverter(name, laterFormat string) *pgen.Case {
+	types := "type Outer struct{ I Inner }\ntype Inner struct{ A int }\ntype OuterOut struct{ I InnerOut }\ntype InnerOut struct{ A int }\n"
+	a := "// goverter:converter\n// goverter:output:format function\n// goverter:output:file ./conv_gen.go\n// goverter:output:package vcase/" + name + "/p\ntype A interface {\n\tConvertOuter(source Outer) OuterOut\n}\n\n"
+	b := "// goverter:converter\n// goverter:output:format function\n// goverter:output:file ./conv_gen.go\n// goverter:output:package vcase/" + name + "/p\ntype B interface {\n\tpInnerToPInnerOut(source Inner) InnerOut\n}\n\n"
+	if laterFormat == "variables" {
+		b = "// goverter:variables\nvar (\n\tpInnerToPInnerOut func(source Inner) InnerOut\n)\n\n"
+		a = strings.Replace(a, "./conv_gen.go", "./input.gen.go", 1)
+	}
+	c := pgen.RawCase(name, map[string]string{"p/input.go": "package p\n\n" + a + b + types}, nil, []string{"./p"})
+	c.Feature("tag", "helper-name-clash,two-converters")
+	return c
+}
+
+// pinnedUnderlyingLiteral: useUnderlyingTypeMethods for named types whose underlying type is a pointer or a receive-only
+// channel: the conversion of the source needs parentheses, (*int)(source) (repaired defect, see known-findings.txt).
+func pinnedUnderlyingLiteral(name string) *pgen.Case {
+	src := "package p\n\n// goverter:converter\n// goverter:extend FromPtr\n// goverter:extend FromChan\n// goverter:useUnderlyingTypeMethods\ntype Converter interface {\n\tConvert(source Input) Output\n}\n\n" +
+		"type IntP *int\ntype Ch <-chan int\ntype Input struct {\n\tV IntP\n\tC Ch\n}\ntype Output struct {\n\tV string\n\tC int\n}\n\nfunc FromPtr(p *int) string { return \"\" }\nfunc FromChan(c <-chan int) int { return 0 }\n"
+	c := pgen.RawCase(name, map[string]string{"p/input.go": src}, nil, []string{"./p"})
+	c.Feature("tag", "underlying-literal")
+	return c
+}
+
+// pinnedNumberedTemporaries: so many temporaries of one base name (pInt, pInt2, .. pInt17) that the numbered names reach the
+// names of temporaries with another base that ends in digits (pInt8, pInt16 for *int8 / *int16): every allocated name is unique.
+func pinnedNumberedTemporaries(name string, sizedFirst bool) *pgen.Case {
+	var sf, tf []string
+	sized := func() {
+		sf = append(sf, "P8 int8", "P16 int16", "U8 uint8")
+		tf = append(tf, "P8 *int8", "P16 *int16", "U8 *uint8")
+	}
+	if sizedFirst {
+		sized()
+	}
+	for i := 0; i < 18; i++ {
+		sf = append(sf, fmt.Sprintf("A%d int", i), fmt.Sprintf("B%d uint", i))
+		tf = append(tf, fmt.Sprintf("A%d *int", i), fmt.Sprintf("B%d *uint", i))
+	}
+	if !sizedFirst {
+		sized()
+	}
+	src := "package p\n\ntype In struct {\n\t" + strings.Join(sf, "\n\t") + "\n}\ntype Out struct {\n\t" + strings.Join(tf, "\n\t") + "\n}\n\n// goverter:converter\ntype Converter interface {\n\tConvert(source In) Out\n}\n"
+	c := pgen.RawCase(name, map[string]string{"p/input.go": src}, nil, []string{"./p"})
+	c.Feature("tag", "numbered-temporaries")
 	return c
 }
 
